@@ -19,13 +19,15 @@ import (
 // C07 — parsing does not depend on how input bytes arrive.
 //
 // Streams written for the Lean driver (lean/ShVerif/Driver/C07.lean):
-//   run     — the chunked byte-source model (Model/L2ByteSrc.lean) against the real primitives of
-//             syntax/lexer.go driven through syntax.VerifLexer over an explicit read schedule;
-//             every result and a checksum of the parser's byte-source fields after every op.
-//   specrun — the *unchunked* specification machine (Model/C07.lean) against the real primitives
-//             run over an arbitrary schedule, for client programs that respect the protocol
-//             under which the theorems hold (see c07SpecOK): a difference is a violation of the
-//             property at the primitive level.
+//
+//	run     — the chunked byte-source model (Model/L2ByteSrc.lean) against the real primitives of
+//	          syntax/lexer.go driven through syntax.VerifLexer over an explicit read schedule;
+//	          every result and a checksum of the parser's byte-source fields after every op.
+//	specrun — the *unchunked* specification machine (Model/C07.lean) against the real primitives
+//	          run over an arbitrary schedule, for client programs that respect the protocol
+//	          under which the theorems hold (static filters in c07Ops, dynamic ones in c07SpecSkip; the Lean side recomputes `ok`): a difference is a violation of the
+//	          property at the primitive level.
+//
 // Search leg (public API only): Parse's tree-with-positions / error under one-byte, single-split,
 // random and zero-length-read schedules against the single-read result (c07Search).
 func init() { register("C07", c07) }
@@ -610,15 +612,15 @@ func c07Ones(n int) []int {
 	return o
 }
 
-func c07SearchInput(c *Ctx, r *Rand, src string, l syntax.LangVariant, tags []string) {
+func c07SearchInput(c *Ctx, r *Rand, src string, l syntax.LangVariant, stop string, tags []string) {
 	if ex := c07Excluded(src, l); ex != "" {
 		c.Case("x", false, ex)
 		return
 	}
-	base := c07Dump(strings.NewReader(src), l, "")
+	base := c07Dump(strings.NewReader(src), l, stop)
 	n := len(src)
 	kinds := 0
-	ok := c07ParseCase(c, src, l, "", c07Ones(n), false, base)
+	ok := c07ParseCase(c, src, l, stop, c07Ones(n), false, base)
 	kinds++
 	// every single split point (at most 64, sampled around the buffer edges when longer)
 	var splits []int
@@ -650,7 +652,7 @@ func c07SearchInput(c *Ctx, r *Rand, src string, l syntax.LangVariant, tags []st
 		if !ok {
 			break
 		}
-		ok = c07ParseCase(c, src, l, "", []int{at}, false, base)
+		ok = c07ParseCase(c, src, l, stop, []int{at}, false, base)
 		kinds++
 	}
 	for i := 0; i < 3 && ok; i++ {
@@ -663,7 +665,7 @@ func c07SearchInput(c *Ctx, r *Rand, src string, l syntax.LangVariant, tags []st
 			rc = append(rc, k)
 			left -= k
 		}
-		ok = c07ParseCase(c, src, l, "", rc, false, base)
+		ok = c07ParseCase(c, src, l, stop, rc, false, base)
 		kinds++
 	}
 	nontrivial := strings.ContainsAny(src, "\\`$\"'<(\x00\r") || n > syntax.VerifBufSize-16
@@ -842,8 +844,15 @@ func c07(c *Ctx) {
 		if !c.Thorough() {
 			langs = []syntax.LangVariant{allLangs[sr.Intn(len(allLangs))], allLangs[sr.Intn(len(allLangs))]}
 		}
+		// StopAt only with single-byte ASCII stop words (no lookahead needed; longer ones are the
+		// open finding C07-stopat-no-lookahead)
+		stop := ""
+		if sr.Chance(15) {
+			stop = sr.Pick([]string{"%", "@", "}", "x"})
+			tags = append(tags, "search-stopat")
+		}
 		for _, l := range langs {
-			c07SearchInput(c, sr, padded, l, tags)
+			c07SearchInput(c, sr, padded, l, stop, tags)
 		}
 	}
 }
